@@ -59,6 +59,14 @@ CHECKS["C04"] = dict(engine="E1", level="exploration", technique="deterministic 
    text="MemFS trees built by seeded Mkdir/WriteFile/Symlink histories with targets of every shape (sibling, ../x, ../../x, absolute, self, 2- and 3-cycles, chains of 2-45 links on both sides of the kernel's limit of 40, dangling, below a regular file), links re-targeted mid-history, then 10-40 calls (Stat, Lstat, Open, ReadFile, ReadDir, Chmod, Truncate, Mkdir/WriteFile below, EvalSymlinks, Readlink, Remove, Rename, Lchown, Link) on paths of 1-4 components through those names, each executed in lockstep on the real kernel inside the chrooted helper (filepath.EvalSymlinks for EvalSymlinks): same errno class, same data, same tree after every call. Sampling, not proof.",
    note="reference = Go os/filepath on this kernel's tmpfs in a chroot (absolute targets and '..' at the root mean the same on both sides); EvalSymlinks compared on chains of at most 30 links (filepath.EvalSymlinks has its own limit of 255)", ref="3/C04")
 
+CHECKS["C02"] = dict(engine="E1", level="exploration", technique="deterministic lockstep simulation of file-handle histories against os.File, with close/remove/rename/truncate at arbitrary instants under open handles",
+   text="seeded histories of 10-60 calls on 1-3 handles of one MemFS or OrefaFS file (plus a second file and directory handles), every flag combination, the handle calls Read, ReadAt, Write, WriteAt, WriteString, Seek (3 whences and an invalid one), Truncate, Stat, Sync, Chmod, Chown, Chdir, Close, ReadDir(n), Readdirnames(n), interleaved at call granularity with path-level Truncate, Rename, Link, Remove and WriteFile of that file; offsets and sizes around the current size (negative, 0, size-1, size, size+k, 70000); each call in lockstep on the *os.File of the chrooted helper: same byte count, bytes, resulting offset, error class, and equal trees after every call. Sampling, not proof.",
+   note="directory batches compared by size and union (directory order is file-system specific); sizes bounded by 70000", ref="3/C02")
+
+CHECKS["C03"] = dict(engine="E1", level="exploration", technique="deterministic lockstep simulation of multi-user call histories against the kernel's access decision (setfsuid/setfsgid/umask in a chrooted helper), with permission changes by the administrator at arbitrary instants",
+   text="MemFS trees of depth up to 3 with seeded owner, group and permission bits (incl. sticky) on every node, three MemIdm users u1(g1) u2(g1) u3(g2) acting through their own Sub views with their own umask, and the administrator; seeded histories of 10-50 path-taking calls (Mkdir, MkdirAll, OpenFile with every flag set, Create, WriteFile, ReadFile, ReadDir, Remove, RemoveAll, Rename, Link, Symlink, Truncate, Chmod, Chown, Lchown, Chtimes, Chdir, Stat, Lstat, Readlink) interleaved at call granularity, with administrator chmod/chown of nodes on the users' paths between calls; every call in lockstep under the acting user's ids on the real kernel: same allow/deny and errno, same data, identical trees afterwards (owner, group and mode of created objects included). Sampling, not proof.",
+   note="group class = primary group only (the helper drops supplementary groups); Link by non-owners not issued (fs.protected_hardlinks=1 on this kernel); setuid/setgid bits not generated; when RemoveAll fails on both sides the errno is not compared (unspecified traversal order) and the trees are resynchronised; a refusal that only comes from os.RemoveAll opening the parent of its operand is not counted", ref="3/C03")
+
 NA = {
  "C13": "Clean, Join, Split, Dir, Base, IsAbs, Rel, Abs, FromSlash, ToSlash, VolumeName, Match and PathIterator are pure functions of their string arguments and the OS-type constant: there is no schedule, clock, I/O, fault or shared state for a simulator to control; generating strings is input fuzzing, a different technique (DESIGN.md section 4).",
 }
